@@ -44,6 +44,12 @@ class Gen:
         k = len(self.twins)
         cat = arg_catalog(k)
         argkeys = list(dict.fromkeys(argkeys))
+        boxstyle = ""
+        if kind in ("boxed_q", "boxed_fn"):
+            boxstyle, kind = kind, "boxed"
+        if boxstyle == "boxed_fn":
+            argkeys = [a for a in argkeys if a in ("tok_val", "mut_val", "flag")]
+            recv = None
         if kind == "boxed":
             argkeys = [a for a in argkeys if a not in ("impl_tr", "generic", "tok_mut", "str_ref", "tok_ref")]
         if kind != "sync":
@@ -196,8 +202,16 @@ class Gen:
             lt_decls = [d.replace("&'a self", "&'a self").replace("&'a mut self", "&'a mut self") for d in lt_decls]
             lt_decls = ["&'a self" if d == "&self" else "&'a mut self" if d == "&mut self" else d for d in lt_decls]
             g2 = "<'a%s>" % ("".join(", " + g for g in generics))
+            if boxstyle == "boxed_fn":
+                # the older async-trait shape: a helper `async fn` defined in the body, Box::pin(helper(args))
+                names_only = [d.split(":")[0].replace("mut ", "").strip() for d in decls]
+                outer = [d.replace("mut ", "") for d in lt_decls]
+                return ("    %s\n    pub fn %s%s(%s) -> std::pin::Pin<Box<dyn std::future::Future<Output = %s> + 'a>> {\n        effect(\"t%d:pre\");\n"
+                        "        async fn __helper(%s) -> %s {\n        %s\n        }\n        Box::pin(__helper(%s))\n    }") % (
+                            at, nm, g2, ", ".join(outer), rty, k, ", ".join(decls), rty, bodytxt, ", ".join(names_only))
+            pin = "std::boxed::Box::pin" if boxstyle == "boxed_q" else "Box::pin"
             return ("    %s\n    pub fn %s%s(%s) -> std::pin::Pin<Box<dyn std::future::Future<Output = %s> + 'a>> {\n        effect(\"t%d:pre\");\n"
-                    "        Box::pin(async move {\n        %s\n        })\n    }") % (at, nm, g2, ", ".join(lt_decls), rty, k, bodytxt)
+                    "        %s(async move {\n        %s\n        })\n    }") % (at, nm, g2, ", ".join(lt_decls), rty, k, pin, bodytxt)
         setup = [a["setup"] for a in args]
         passes = [a["pass_"] for a in args] + ["n"]
         if "psp: &tracing::Span" in decls:
@@ -226,7 +240,7 @@ class Gen:
         fragile = kind == "boxed" and bool(retcfg or errcfg)
         cfg = '#[cfg(feature = "fragile")]\n' if fragile else ""
         self.rs.append("%spub mod t%d {\n    use super::super::helpers::*;\n%s\n%s\n%s\n}" % (cfg, k, head, fns, runner))
-        self.twins.append({"id": k, "kind": kind, "ret": ret, "recv": recv or "", "args": argkeys, "attr": attr_txt, "name": name, "level": level,
+        self.twins.append({"id": k, "kind": kind, "boxstyle": boxstyle, "ret": ret, "recv": recv or "", "args": argkeys, "attr": attr_txt, "name": name, "level": level,
                            "target": target or ("instr::corpus::t%d" % k), "parent": parent, "follows": follows, "fields": fields,
                            "retcfg": retcfg or {"mode": "", "level": 0}, "errcfg": errcfg or {"mode": "", "level": 0}, "inputs": inputs,
                            "has_ret": bool(retcfg), "has_err": bool(errcfg), "fragile": fragile})
@@ -243,6 +257,11 @@ class Gen:
                 self.twin(kind, ["tok_val"], ret, attr={"ret": "debug", "err": "display"})
                 self.twin(kind, [], ret, attr={"ret": "debug"})
                 self.twin(kind, ["tok_ref"], ret, attr={"err": "debug"})
+        # systematic: the other spellings of the boxed-future style
+        for kind in ("boxed_q", "boxed_fn"):
+            for ret in rets:
+                self.twin(kind, ["tok_val"], ret)
+                self.twin(kind, ["tok_val", "flag"], ret, attr={"ret": "debug", "err": "display"})
         # systematic: every argument shape x kind, every receiver x kind
         for kind in kinds:
             for a in argk:
@@ -257,7 +276,7 @@ class Gen:
                 self.twin(kind if kind != "boxed" else "async", ["tok_ref", "flag"], rng.choice(rets), attr={"fields": [cf]})
         # random mixtures of attribute arguments
         while len(self.twins) < n:
-            kind = rng.choice(kinds)
+            kind = rng.choice(kinds + ["boxed_q", "boxed_fn"])
             ak = rng.sample(argk, rng.randint(0, 3))
             attr = {}
             if rng.random() < 0.3:
@@ -312,7 +331,7 @@ class Gen:
 
 def main():
     g = Gen(20260929)
-    g.build(460)
+    g.build(520)
     ch = g.write()
     print("instrument corpus: %d twins (%s)" % (len(g.twins), "rewritten" if ch else "unchanged"))
 
